@@ -747,10 +747,12 @@ struct IsoPlan {
 // cycles, tracked variables, measured-then-reset qubits.
 std::string isoProgram(int mask) {
     std::string s;
-    s += "class Stats { public static int runs = 0; public static int released = 0; public static int probes = 0; public static float acc = 0.5f; public constructor() -> Stats = default; }\n";
-    s += "class Probe { public qubit q; public int id; public constructor() -> Probe { Stats.probes = Stats.probes + 1; this.id = Stats.probes; return this; } public destructor() -> void { Stats.released = Stats.released + 1; echo(\"probe \" + this.id); } }\n";
+    s += "class Stats { public static int runs = 0; public static int released = 0; public static int probes = 0; public static Probe parked = null; public static float acc = 0.5f; public constructor() -> Stats = default; }\n";
+    s += "class Probe { @tracked public qubit q; public int id; public constructor() -> Probe { Stats.probes = Stats.probes + 1; this.id = Stats.probes; return this; } public destructor() -> void { Stats.released = Stats.released + 1; echo(\"probe \" + this.id); } }\n";
     s += "class Link { public Link next; public Probe p; public constructor() -> Link { this.next = null; this.p = new Probe(); return this; } }\n";
-    s += "class Box<T> { public T v; public constructor(T v) -> Box<T> { this.v = v; return this; } public function get() -> T { return this.v; } }\n";
+    s += "class Box<T> { public T v; public constructor(T v) -> Box<T> { this.v = v; return this; } public function get() -> T { return this.v; } public function fresh() -> int { Cnt c = new Cnt(); return c.id; } }\n";
+    // a class that happens to be called like Box's type parameter
+    s += "class T { public int v = 7; public constructor() -> T { return this; } }\n";
     s += "class Cnt { public static int made = 0; public int id; public constructor() -> Cnt { Cnt.made = Cnt.made + 1; this.id = Cnt.made; return this; } }\n";
     s += "function cycle() -> void { Link a = new Link(); Link b = new Link(); a.next = b; b.next = a; }\n";
     s += "class Shape { public constructor() -> Shape = default; }\nclass Circle extends Shape { public constructor() -> Circle { super(); return this; } }\n";
@@ -780,6 +782,8 @@ std::string isoProgram(int mask) {
     if (mask & 64) s += "    echo(mkLabel(new Circle()).what);\n    echo(mkLabel(new Shape()).what);\n";
     if (mask & 128) s += "    echo(\"deep\");\n    echo(rec(" + std::to_string(300 + 50 * ((mask >> 8) & 3)) + "));\n";
     if (mask & 1024) s += "    Probe sp = new Probe();\n    qubit keep = sp.q;\n    destroy sp;\n    x(keep);\n    Probe sp2 = new Probe();\n    bit sr = measure sp2.q;\n    echo(\"stale=\" + sr);\n    destroy sp2;\n";
+    if (mask & 16384) s += "    T tt = new T();\n    echo(\"T.v=\" + tt.v);\n    Box<int> bt = new Box<int>(3);\n    echo(bt.fresh() > 0);\n    T tu = new T();\n    echo(tu.v);\n";
+    if (mask & 32768) s += "    Stats.parked = new Probe();\n    Probe rec = new Probe();\n    x(rec.q);\n    measure rec.q;\n    destroy rec;\n";
     if (mask & 8192) s += "    echo(\"side=\" + Cfg.side);\n    echo(\"other=\" + Cfg.other);\n";
     if (mask & 4096) s += "    Z3 z = new Z3();\n    echo(\"z=\" + z.all());\n";
     if (mask & 32) s += "    Cnt c1 = new Cnt();\n    Cnt c2 = new Cnt();\n    echo(c2.id);\n    echo(Cnt.made);\n";
@@ -1019,7 +1023,7 @@ IsoPlan genIso(uint64_t seed, uint64_t run) {
         go.guardViolationProb = knob.chance(0.2) ? 0.1 : 0.0;
         p.qp = qh::generate(g, go);
     } else if (p.family == 3) { p.variantMask = (int)knob.below(3); p.K = 5; }
-    else p.variantMask = 1 + (int)knob.below(16383);
+    else p.variantMask = 1 + (int)knob.below(65535);
     return p;
 }
 
@@ -1129,6 +1133,8 @@ void runOne(const sim::Options& opt, uint64_t run, sim::RunReport& rep) {
         if (p.variantMask & 2048) rep.count("c18.out_of_range_literal_on_executed_path");
         if (p.variantMask & 4096) rep.count("c18.class_chain_declared_most_derived_first");
         if (p.variantMask & 8192) rep.count("c18.static_final_initialised_by_a_measurement");
+        if (p.variantMask & 16384) rep.count("c18.class_named_like_a_type_parameter");
+        if (p.variantMask & 32768) rep.count("c18.tracked_owner_parked_in_a_static_field");
     }
     sim::Hash h;
     h.add(sim::fnv1a(isoSource(p)));
@@ -1152,7 +1158,7 @@ void runOne(const sim::Options& opt, uint64_t run, sim::RunReport& rep) {
         std::function<bool(const std::vector<classprog::Stmt>&)> f = [&](const std::vector<classprog::Stmt>& m) { IsoPlan c = cur; c.cp.main = m; if (failsWith(c)) { cur = c; return true; } return false; };
         sim::ddmin<classprog::Stmt>(cur.cp.main, f, budget);
     } else if (cur.family == 2) {
-        for (int b = 0; b < 14; ++b) { IsoPlan c = cur; c.variantMask &= ~(1 << b); if (c.variantMask != cur.variantMask && failsWith(c)) cur = c; }
+        for (int b = 0; b < 16; ++b) { IsoPlan c = cur; c.variantMask &= ~(1 << b); if (c.variantMask != cur.variantMask && failsWith(c)) cur = c; }
     }
     while (cur.K > 2) { IsoPlan c = cur; c.K = cur.K - 1; if (failsWith(c)) cur = c; else break; }
     if (cur.reanalyse) { IsoPlan c = cur; c.reanalyse = false; if (failsWith(c)) cur = c; }
